@@ -497,6 +497,7 @@ package xmpp
 //@   ensures [C11.enable.skip]   (old(s.err) == nil && (!old(stanza.smOffered(s.Features)) || !old(o.StreamManagementEnable))) ==> s.err == nil && count(Write) == old(count(Write)) && count(PacketRead) == old(count(PacketRead)) && smStateKept(s)
 //@   ensures [C11.enable.once]   count(Write) <= old(count(Write)) + 1 && count(PacketRead) <= old(count(PacketRead)) + 1
 //@   ensures [C11.enable.ok]     (old(s.err) == nil && newReadIs(stanza.SMEnabled)) ==> s.err == nil && atlast(Write) < atlast(PacketRead) && s.SMState.Id == last(PacketRead).(stanza.SMEnabled).Id && s.SMState.Inbound == 0 && s.SMState.UnAckQueue != nil && fresh(s.SMState.UnAckQueue) && len(s.SMState.UnAckQueue.Uslice) == 0
+//@   ensures [C09.enable.reset,C11.enable.reset] (old(s.err) == nil && newReadIs(stanza.SMEnabled)) ==> s.SMState.Inbound == 0
 //@   ensures [C11.enable.noresume] (old(s.err) == nil && newReadIs(stanza.SMEnabled) && !parsesTrue(last(PacketRead).(stanza.SMEnabled).Resume)) ==> !o.StreamManagementEnable
 //@   ensures [C11.enable.needs]  (old(s.err) == nil && s.err == nil && old(stanza.smOffered(s.Features)) && old(o.StreamManagementEnable)) ==> newReadIs(stanza.SMEnabled) && count(Write) == old(count(Write)) + 1
 //@   ensures s.transport == old(s.transport) && s.Features == old(s.Features) && s.BindJid == old(s.BindJid)
